@@ -26,6 +26,9 @@ if os.path.realpath(REPO) != "/repo":
     COQ = os.path.join(_alt, "coq")
     BUILD = os.path.join(_alt, "build")
     os.makedirs(BUILD, exist_ok=True)
+    # evidence and replays of a scratch run never overwrite those of /repo
+    EVID = os.path.join(_alt, "evidence")
+    REPLAYS = os.path.join(_alt, "replays")
 EVID = os.path.join(VERIF, "evidence")
 REPLAYS = os.path.join(VERIF, "replays")
 sys.path.insert(0, os.path.join(VERIF, "tools"))
